@@ -30,6 +30,37 @@ fn expected_rgba(p: u32) -> [u8; 4] {
     [r as u8, g as u8, b as u8, a as u8]
 }
 
+const FILE_NAMES: [&[u8]; 3] = [b"caf\xe9.png", b"\xff\xfe name with spaces.png", b"trailing.dot."];
+
+/// write_png to file name number `ni` (bytes that are not valid UTF-8 among them): a PNG must be
+/// at exactly that path afterwards
+fn eval_filename(root: &PathBuf, ni: usize) -> Option<Violation> {
+    use std::os::unix::ffi::OsStrExt;
+    let dir = root.join("target").join("tmp");
+    let _ = std::fs::create_dir_all(&dir);
+    let name = FILE_NAMES[ni];
+    let path = dir.join(std::ffi::OsStr::from_bytes(name));
+    let _ = std::fs::remove_file(&path);
+    let px: Vec<u32> = vec![0xff102030, 0x80402010, 0, 0xffffffff, 0x01010101, 0xfe7f00fe];
+    let r = guard(|| {
+        let dt = DrawTarget::from_vec(3, 2, px.clone());
+        dt.write_png(&path).map_err(|e| format!("{:?}", e))
+    });
+    let ok = match r {
+        Ok(Ok(())) => match std::fs::read(&path) {
+            Ok(raw) => raw.len() > 20 && raw[..4] == [0x89, b'P', b'N', b'G'],
+            Err(_) => false,
+        },
+        _ => false,
+    };
+    let _ = std::fs::remove_file(&path);
+    if ok {
+        None
+    } else {
+        Some(Violation::new("layout/png-not-written-to-the-given-path", format!("kind=filename idx={}", ni), format!("write_png did not leave a PNG file at exactly the path it was given ({:?})", String::from_utf8_lossy(name))))
+    }
+}
+
 fn eval_surface(root: &PathBuf, tag: usize, w: i32, h: i32, px: &[u32]) -> Result<u64, Violation> {
     let case = case_str(w, h, px);
     let n = (w * h) as usize;
@@ -303,6 +334,21 @@ impl Check for C19 {
                 Err(e) => run.report(7000 + s, e),
             }
         });
+        // the export goes to exactly the path it is given, also when that is not valid UTF-8
+        run.bound("file names", "export of a 3x2 surface to file names with non-UTF-8 bytes, spaces and a trailing dot, in an existing directory".to_string());
+        run.seq(|l| {
+            for ni in 0..FILE_NAMES.len() {
+                l.states += 1;
+                l.transitions += 1;
+                l.traces += 1;
+                l.evals += 1;
+                l.nontrivial += 1;
+                match eval_filename(&root, ni) {
+                    None => l.outcome(ni as u64 + 77),
+                    Some(v) => run.report(8000 + ni, v),
+                }
+            }
+        });
         // every (a, c <= a) pair, for each colour channel: un-premultiply must be floor(c*255/a)
         run.bound("unpremultiply table", "all 32896 (alpha, colour <= alpha) pairs x 3 channel positions, as 256-pixel-wide surfaces through write_png".to_string());
         run.par(3 * 16, |s, l| {
@@ -356,6 +402,10 @@ impl Check for C19 {
     fn replay(&self, case: &str) -> Result<Option<Violation>, String> {
         let m = kv(case);
         match kv_s(&m, "kind")? {
+            "filename" => {
+                let root = std::env::var("VERIF_ROOT").map(PathBuf::from).unwrap_or_else(|_| PathBuf::from("/verif"));
+                Ok(eval_filename(&root, kv_i(&m, "idx")? as usize))
+            }
             "surface" => {
                 let px: Vec<u32> = {
                     let s = kv_s(&m, "px").unwrap_or("");
